@@ -4,7 +4,8 @@ import os, subprocess
 
 ASSUMPTIONS = [
   "chrono's NaiveDate is NOT assumed to be the proleptic Gregorian calendar: Num/Civil.v re-implements it and the correspondence compares from_excel_date / date_to_serial_number / format_number with the extracted model on every serial 1..2958465 on every run (hashed per 1024 serials; a differing hash is expanded to per-serial lines)",
-  "chrono's year range (-262143..262142, NaiveDate::from_ymd_opt -> None outside) and the fact that `NaiveDate + Months/Days` panics outside it are written into the model as constants; checked on boundary cases ('ts' and 'd' lines) on every run",
+  "chrono's year range (-262143..262142: NaiveDate::from_ymd_opt and checked_add/sub_months/days return None outside) is written into the model as constants; checked on boundary cases ('ts' and 'd' lines, incl. astronomic and i32::MIN/MAX arguments) on every run",
+  "the harness is built in release mode: `month - 1` / `day - 1` in permissive_date_to_serial_number wrap at i32::MIN (the model uses Z; both end in None -> #NUM!, tied by the i32::MIN cases); an overflow-checked build panics there instead",
   "DATE/YEAR/MONTH/DAY/WEEKDAY are modelled on already floored integer arguments; the argument coercion (get_number, floor, `as i32` saturation) is not part of the model",
   "typed ISO dates: only the ISO arm of parse_date with separator '-' and ASCII digits is modelled (parse_iso); other date shapes belong to C19",
   "the formatter is observed with locale en and the format code yyyy-mm-dd only",
@@ -85,7 +86,7 @@ def run(cfg):
     return {
         "evaluations": evaluations,
         "distinct_nontrivial": meta.get("distinct_nontrivial", 0),
-        "rule": "EXHAUSTIVE over the property's quantifier: every serial 1..2958465 through from_excel_date, date_to_serial_number and format_number(yyyy-mm-dd) against the extracted model (hash per 1024 serials, expanded to single serials on mismatch); YEAR/MONTH/DAY/WEEKDAY(n), WEEKDAY(n,t) for t in 1,2,3,11..17,0,4, DATE(YEAR,MONTH,DAY) and the typed yyyy-mm-dd text through a real Model: in quick for every 97th serial + the two days around every month boundary + Feb 27..Mar 1 of every year + the first 800 and last 400 serials (~240k serials x 19 cells), in thorough for every serial; out-of-range serials; DATE(y,m,d) on boundary and random month/day overflows incl. astronomic arguments; date_to_serial_number on invalid dates and chrono's year limits; typed ISO texts (valid, invalid, unpadded, years < 1899). Non-trivial = distinct serials evaluated",
+        "rule": "EXHAUSTIVE over the property's quantifier: every serial 1..2958465 through from_excel_date, date_to_serial_number and format_number(yyyy-mm-dd) against the extracted model (hash per 1024 serials, expanded to single serials on mismatch); YEAR/MONTH/DAY/WEEKDAY(n), WEEKDAY(n,t) for t in 1,2,3,11..17,0,4, DATE(YEAR,MONTH,DAY) and the typed yyyy-mm-dd text through a real Model: in quick for every 97th serial + the two days around every month boundary + Feb 27..Mar 1 of every year + the first 800 and last 400 serials (~240k serials x 19 cells), in thorough for every serial; out-of-range serials; DATE(y,m,d) on boundary and random month/day overflows incl. astronomic and i32::MIN/MAX arguments (a panic is a violation); date_to_serial_number on invalid dates and chrono's year limits; typed ISO texts (valid, invalid, unpadded, years < 1899). Non-trivial = distinct serials evaluated",
         "samples": meta.get("samples", []),
         "disagreements": dis, "n_disagreements": ndis,
         "oracle_failures": meta.get("oracle_failures", []),
